@@ -422,6 +422,16 @@ package region
 //@   loop 2 invariant[C03] m != nil && ghostat("owed", m) == 0
 //@   loop 3 invariant[C03] m != nil && ghostat("owed", m) == 0
 
+// the in-repo snappy codec against the contract assumed of every codec: the bytes already in dst are kept and the chunk
+// is appended after them (the library may encode into the spare capacity handed to it, never over the live prefix)
+//@ func snappy.snappyCodec.Encode
+//@   modifies contents(dst)
+//@   ensures[C15] len(r0) == len(dst) + r1
+//@   ensures[C15] forall(k, 0 <= k && k < len(dst), r0[k] == old(dst[k]))
+//@ func snappy.snappyCodec.Decode
+//@   modifies contents(dst)
+//@   ensures[C15] r2 == nil ==> len(r0) == len(dst) + r1
+//@   ensures[C15] r2 == nil ==> forall(k, 0 <= k && k < len(dst), r0[k] == old(dst[k]))
 //@ func snappy.snappyCodec.ChunkLen
 //@   modifies nothing
 //@   ensures[C15] r0 == 218421
